@@ -81,6 +81,10 @@ Minor(ver) ==
                           \cup {RndPerm(f, j) : j \in 1..K} \cup {RndPerm(c, j) : j \in 1..K}
                  ELSE {})
 
+Body(ver, p) == IF ver = "4.0" THEN JoinLead(p, SLASH) ELSE Join(p, SLASH)
+InsAt(s, j, e) == SubSeq(s, 1, j - 1) \o <<e>> \o SubSeq(s, j, Len(s))
+RemAt(s, k) == SubSeq(s, 1, k - 1) \o SubSeq(s, k + 1, Len(s))
+
 (* ---- header / tail variants -------------------------------------------------------- *)
 HeaderVariants(ver) ==
   LET h == SB[Header(ver)]
@@ -97,8 +101,20 @@ HeaderVariants(ver) ==
              StrBytes("CVSS:3."), StrBytes("CVSS:"), StrBytes("CVSS:31/") }
 TailVariants == { <<>>, <<SLASH>>, <<32>>, <<10>>, <<0>>, <<SLASH, SLASH>>, <<200>> }
 
-InsAt(s, j, e) == SubSeq(s, 1, j - 1) \o <<e>> \o SubSeq(s, j, Len(s))
-RemAt(s, k) == SubSeq(s, 1, k - 1) \o SubSeq(s, k + 1, Len(s))
+(* more header spellings, applied to the major spines only: every byte of the header replaced by every  *)
+(* byte of the header alphabet (another digit, a sign, a separator: "CVSS:3.3/", "CVSS:3../", ...), a    *)
+(* zero / sign / blank inserted anywhere ("CVSS:04.0", "CVSS:+4.0", "CVSS:4.-0"), and a complete vector  *)
+(* of ANOTHER version written before or after this one on the same line, separated by a blank            *)
+HeaderAlphabet == {67, 86, 83, 58, 46, 47, 43, 45, 32} \cup (48..57)
+OtherVectors(ver) ==
+  {SB[Header(v)] \o Body(v, CanonElems(v, BaseOnlyObj(v, 1))) : v \in VersionSet \ {ver}}
+HeaderVariants2(ver) ==
+  LET h == SB[Header(ver)]
+  IN  {[h EXCEPT ![i] = c] : i \in 1..Len(h), c \in HeaderAlphabet}
+      \cup {InsAt(h, i, c) : i \in 1..(Len(h) + 1), c \in {48, 43, 45, 32}}
+      \cup {w \o <<c>> \o h : w \in OtherVectors(ver), c \in {32, 9, 10}}
+TailVariants2(ver) == {<<c>> \o w : w \in OtherVectors(ver), c \in {32, 9, 10}}
+
 
 (* single-byte edits of a whole concrete string: substitute (separator, colon, a letter, *)
 (* blank, NUL, a byte >= 0x80, the other case), delete, insert                           *)
@@ -112,7 +128,6 @@ ByteEdits(b) ==
    \cup {InsAt(b, i, c) : i \in {1, Len(b) + 1},
                            c \in {40, 41, 91, 93, 123, 125, 34, 39, 60, 62, 44, 59, 46, 45, 95, 43, 61, 35, 92, 9, 13, 10}}) \ {b}
 
-Body(ver, p) == IF ver = "4.0" THEN JoinLead(p, SLASH) ELSE Join(p, SLASH)
 
 (* ---- C18 catalogue: the error a single catalogued defect must produce ------------------ *)
 (* v2 / v4: misplaced, repeated or unknown metric -> order; v3: named errors *)
@@ -236,8 +251,10 @@ DevTrunc ==
 Concretise ==
   /\ ps.pc = "build"
   /\ \E hv \in ({SB[Header(inp.ver)]} \cup
-                (IF ndev = 0 /\ Fam \in {"all", "defects"} THEN HeaderVariants(inp.ver) ELSE {})) :
-     \E tv \in ({<<>>} \cup (IF ndev = 0 /\ Fam = "all" THEN TailVariants ELSE {})) :
+                (IF ndev = 0 /\ Fam \in {"all", "defects"}
+                 THEN HeaderVariants(inp.ver) \cup (IF IsMajor THEN HeaderVariants2(inp.ver) ELSE {}) ELSE {})) :
+     \E tv \in ({<<>>} \cup (IF ndev = 0 /\ Fam = "all"
+                               THEN TailVariants \cup (IF IsMajor THEN TailVariants2(inp.ver) ELSE {}) ELSE {})) :
        LET exact == hv = SB[Header(inp.ver)]
            b == hv \o Body(inp.ver, els) \o tv
            \* a wrong header is catalogued when the string really lacks the header
